@@ -63,6 +63,7 @@ type tracesCase struct {
 	Endpoint string  `json:"endpoint"`
 	Query    string  `json:"query,omitempty"`
 	Spans    []TSpan `json:"spans"`
+	Ver      VerCfg  `json:"ver"`
 }
 
 var traceEndpoints = []string{"search-tags", "search-tags", "search-notags", "traceql", "traceql", "tags-v2", "values-v2"}
@@ -120,6 +121,25 @@ func genTraces(rt *rapid.T) tracesCase {
 	if some("near-after") {
 		add("pna", 0, w.To+r64(rt, 1, 3600*nsSec, "na"), w.To+1, far)
 	}
+	// hours outside the window but on the window's own UTC days: when the tag index is
+	// bounded by date alone (tempo_v2 does not cover the window) only the timestamp bounds on
+	// tempo_traces keep these out
+	if d0 := int64(dayOf(w.From)) * nsDay; w.From-d0 > 3600*nsSec {
+		if some("sameday-before") {
+			add("psb", 0, r64(rt, d0, w.From-3600*nsSec, "sdb"), d0, w.From-1)
+		}
+		if some("sameday-before-own-trace") {
+			add("tsb", 6, r64(rt, d0, w.From-3600*nsSec, "sdb2"), d0, w.From-1)
+		}
+	}
+	if d1 := int64(dayOf(w.To)+1)*nsDay - 1; d1-w.To > 3600*nsSec {
+		if some("sameday-after") {
+			add("psa", 0, r64(rt, w.To+3600*nsSec, d1, "sda"), w.To+1, d1)
+		}
+		if some("sameday-after-own-trace") {
+			add("tsa", 7, r64(rt, w.To+3600*nsSec, d1, "sda2"), w.To+1, d1)
+		}
+	}
 	if some("far-before") {
 		add("pfb", 0, w.From-3*nsDay-r64(rt, 0, nsDay, "fb"), 1, w.From-1)
 	}
@@ -144,6 +164,7 @@ func genTraces(rt *rapid.T) tracesCase {
 			c.Spans = append(c.Spans, TSpan{Tag: "decoy", Trace: 5, Ts: ts, Dur: 77, App: "b"})
 		}
 	}
+	c.Ver = genVer(rt)
 	return c
 }
 
@@ -261,7 +282,8 @@ func predTraces(c tracesCase, o *evid.Obs) error {
 	case "values-v2":
 		path = "/api/v2/search/tag/mark/values"
 	}
-	rd, be := newReader(st.db, c.Cluster)
+	rd, be := newReader(st.db, c.Cluster, c.Ver, w)
+	o.Tag(c.Ver.tags(w, "tempo_v2", "tempo_traces_v2")...)
 	defer rd.Close()
 	var resp *readersvc.Response
 	inZone(c.RZone, func() { resp = rd.Get(path + "?" + q.Encode()) })
@@ -408,6 +430,14 @@ func predTraces(c tracesCase, o *evid.Obs) error {
 	if c.Endpoint == "traceql" {
 		dataTables["tempo_traces"] = false
 		lim.DataHi = w.To - 1
+	}
+	// Tempo tag search: when tempo_v2 does not cover the window the tag index is read by date
+	// alone, by design (sqlIndexQuery.go) - it is an index table, a covering date range is
+	// what the property asks of it; the read is then confined by the bounds on tempo_traces,
+	// which checkScans demands in every class.
+	lim.IndexDateOnly = c.Endpoint == "search-tags" && !c.Ver.covers("tempo_v2", w)
+	if lim.IndexDateOnly {
+		o.Tag("tag-index-bounded-by-date-only")
 	}
 	err = checkScans(st.db, stmts, lim, o)
 	dataTables["tempo_traces"] = saved
